@@ -382,6 +382,25 @@ def job_hist(ss):
             e2 = e2 + e * e
         ss.prove("hist.sum_of_squared_weights", F, far(simp(F, e2).t, sw2.t, 0), key="hist.sum_of_squared_weights", payload=pay, timeout=90, describe="sum of squared bin errors = sum of squared weights")
         ss.witness("hist.reach", F)
+        # per bin, with a non-zero mask error: a populated bin carries sqrt(sum of its squared weights) whatever the
+        # sum of its weights is (signed weights may cancel), an empty bin carries the mask error
+        h1 = hg.Hist1D.histogram(m, edges, weights=w, mask_error=1.0)
+        pay1 = _pay("hist", mask_error=1.0)
+        for k in range(3):
+            inb = []
+            for i in range(n):
+                lo = S.sbool(m[i] >= edges[k])
+                hi = S.sbool((m[i] <= edges[k + 1]) if k == 2 else (m[i] < edges[k + 1]))
+                inb.append((lo & hi).t)
+            ref2 = SymReal(T.ZERO)
+            for i in range(n):
+                ref2 = ref2 + SymReal(T.ite(inb[i], (w[i] * w[i]).t, T.ZERO))
+            populated = T.bor(*inb)
+            ek = h1.error[k]
+            ss.prove("hist.bin_error_populated[%d]" % k, F + [populated], T.bor(far(simp(F + [populated], ek * ek).t, ref2.t, 0), T.lt(ek.t, T.ZERO)), key="hist.bin_error", payload=pay1, timeout=60,
+                     describe="error^2 of a populated bin = sum of the squared weights of its events (also when the weights cancel)")
+            ss.prove("hist.bin_error_empty[%d]" % k, F + [T.bnot(populated)], far(simp(F + [T.bnot(populated)], ek).t, T.ONE, 0), key="hist.bin_error", payload=pay1, timeout=60,
+                     describe="an empty bin carries mask_error")
     finally:
         hg.np = old
 
